@@ -12,7 +12,7 @@ RULE = ('boxes/points on an integer grid (incl. zero-width/zero-height boxes, po
         'configurations of <=2+2 boxes on a 4x4 grid satisfying the tie condition, plus random collections of 0..40 rectangles, lines and cubics '
         'satisfying it; non-trivial = at least one overlapping pair')
 NOT_PROVED = ['nothing: the statement is proved in full over R, and (Proofs/C19float.v, via Flocq) the binary64 instance of includes / overlaps / the whole sweep is proved EQUAL to the real instance on the real values of finite inputs, so every theorem transfers to floats; NaN/infinite coordinates are outside (witnesses: includes_needs_finite, overlaps_nan_true_computed)']
-ASSUMPTIONS = ['Coq.Floats.FloatAxioms (stdlib specification of the primitive float operations) for the float-instance theorems', 'distinct shapes compare unequal (object identity); two value-equal Segment objects in one collection are outside the model']
+ASSUMPTIONS = ['Coq.Floats.FloatAxioms (stdlib specification of the primitive float operations) for the float-instance theorems', 'distinct shapes compare unequal (object identity); value-equal but distinct Segment objects in one collection are outside the Coq model (shapes are indices there) and are exercised on the real code by the search']
 HAND_FINGERPRINTS = [('utils/linesweep.py', 'bbox_intersections'), ('utils/linesweep.py', 'dequefilter')]
 P = Point
 
@@ -168,6 +168,10 @@ def search(ctx):
     for _ in range(ctx.n(30, 400)):
         A = [Rectangle(rng.uniform(5, 80), rng.uniform(5, 80), origin=P(rng.uniform(-200, 200), rng.uniform(-200, 200))) for _ in range(rng.randint(0, 10))]
         B = [gen.segment(rng, order=rng.choice([2, 4]), fam='float')[0] for _ in range(rng.randint(0, 10))]
+        if B and rng.random() < 0.5:
+            # distinct Segment OBJECTS that compare equal (coincident segments): they are different shapes and each pairs on its own
+            for _k in range(rng.randint(1, 2)): B.insert(rng.randrange(len(B) + 1), gen.fresh_copy(rng.choice(B)))
+            if rng.random() < 0.5: A, B = B, A
         if not tie_free([a.bounds() for a in A], [b.bounds() for b in B]): continue
         ev += 1; dist['sweep/shapes'] = dist.get('sweep/shapes', 0) + 1
         try:
